@@ -263,7 +263,7 @@ func (r *Reconciler) reconcileValidate(ctx context.Context, proposal *configapi.
 		case *configapi.Proposal_Change:
 			rollbackIndex = config.Index
 			rollbackValues = make(map[string]*configapi.PathValue)
-			for path, changeValue := range details.Change.Values {
+			applyChange := func(path string, changeValue *configapi.PathValue) {
 				deletedParentPath, deletedParentValue := applyChangeToConfig(changeValues, path, changeValue)
 				if deletedParentValue != nil {
 					rollbackValues[deletedParentPath] = deletedParentValue
@@ -275,6 +275,17 @@ func (r *Reconciler) reconcileValidate(ctx context.Context, proposal *configapi.
 						Path:    path,
 						Deleted: true,
 					}
+				}
+			}
+			// deletes are applied before updates, so that an update beneath a node deleted by the same change survives
+			for path, changeValue := range details.Change.Values {
+				if changeValue.Deleted {
+					applyChange(path, changeValue)
+				}
+			}
+			for path, changeValue := range details.Change.Values {
+				if !changeValue.Deleted {
+					applyChange(path, changeValue)
 				}
 			}
 		case *configapi.Proposal_Rollback:
@@ -471,8 +482,16 @@ func (r *Reconciler) reconcileCommit(ctx context.Context, proposal *configapi.Pr
 				config.Values = make(map[string]*configapi.PathValue)
 			}
 			updatedChangeValues := controllerutils.AddDeleteChildren(proposal.TransactionIndex, changeValues, config.Values)
+			// deletes are applied before updates, so that an update beneath a node deleted by the same change survives
 			for path, updatedChangeValue := range updatedChangeValues {
-				_, _ = applyChangeToConfig(config.Values, path, updatedChangeValue)
+				if updatedChangeValue.Deleted {
+					_, _ = applyChangeToConfig(config.Values, path, updatedChangeValue)
+				}
+			}
+			for path, updatedChangeValue := range updatedChangeValues {
+				if !updatedChangeValue.Deleted {
+					_, _ = applyChangeToConfig(config.Values, path, updatedChangeValue)
+				}
 			}
 			config.Status.Committed.Index = proposal.TransactionIndex
 			err = r.configurations.Update(ctx, config)
